@@ -7,12 +7,15 @@
 (*   [cid  |-> cell identity (becomes the cell id in 4.5 notebooks),       *)
 (*    fam  |-> content family (which text the source derives from),        *)
 (*    kind |-> "code" | "markdown" | "raw",                                 *)
-(*    src  |-> 0..8  source variant: 0 family text, 1 small edit (stays    *)
+(*    src  |-> 0..10 source variant: 0 family text, 1 small edit (stays    *)
 (*             "strictly similar"), 2 moderate edit (only approximately    *)
 (*             similar), 3 rewritten (dissimilar), 4 emptied, 5 / 6 two    *)
 (*             far-apart lines edited (differently in 5 and 6), 7 a line   *)
 (*             inserted before a line that also gets a character at        *)
-(*             column 0, 8 only that character,                            *)
+(*             column 0, 8 only that character, 9 one line of a run of     *)
+(*             identical adjacent lines deleted (nothing else changes),    *)
+(*             10 only the last line edited (its ending, or lack of one,   *)
+(*             kept),                                                      *)
 (*    outs |-> 0..7  output-list variant (code cells),                     *)
 (*    md   |-> 0..5  cell metadata variant (2..4 share a tags list that    *)
 (*             grows differently; 5 carries the "nbdime-conflicts" record  *)
@@ -142,7 +145,7 @@ Edits(nb) ==
   \* fine-grained edits inside lines (first cell only, to keep the state space small): 5 / 6 edit the same two
   \* far-apart lines differently; 7 inserts a line before the line 8 edits at column 0, and makes that edit too
   (IF n = 0 THEN {} ELSE
-   { <<[a |-> "EditSource", pos |-> 1, v |-> v], SetField(1, "src", v)>> : v \in 5..8 })
+   { <<[a |-> "EditSource", pos |-> 1, v |-> v], SetField(1, "src", v)>> : v \in 5..10 })
   \cup
   \* convert a cell to another type, keeping its identity (code <-> markdown: outputs / execution count go or come)
   { <<[a |-> "ChangeKind", pos |-> i],
@@ -155,6 +158,12 @@ Edits(nb) ==
       i \in {q \in 1..n : nb.cells[q].kind = "code"}, v \in 0..7 }
   \cup
   { <<[a |-> "EditCellMeta", pos |-> i, v |-> v], SetField(i, "md", v)>> : i \in 1..n, v \in 0..5 }
+  \cup
+  \* the numbers in a cell's / the notebook's metadata change their JSON type only (1 -> 1.0; variants 10 + v): for
+  \* Python's == nothing changed, for JSON the documents differ
+  { <<[a |-> "RetypeCellMeta", pos |-> i], SetField(i, "md", nb.cells[i].md + 10)>> : i \in {q \in 1..n : nb.cells[q].md \in 1..4} }
+  \cup
+  (IF nb.nbmd = 2 THEN { <<[a |-> "RetypeNbMeta"], [nb EXCEPT !.nbmd = 12]>> } ELSE {})
   \cup
   { <<[a |-> "SetExecCount", pos |-> i, v |-> v], SetField(i, "ec", v)>> :
       i \in {q \in 1..n : nb.cells[q].kind = "code"}, v \in 0..2 }
@@ -200,11 +209,11 @@ Spec == Init /\ [][Next]_vars
 View == <<base, local, remote, nl, nr>>
 
 IsNb(nb) == /\ nb.minor \in 0..5
-            /\ nb.nbmd \in 0..4
+            /\ nb.nbmd \in (0..4) \cup {12}
             /\ \A i \in 1..Len(nb.cells) :
                   /\ nb.cells[i].kind \in {"code", "markdown", "raw"}
-                  /\ nb.cells[i].src \in 0..8 /\ nb.cells[i].outs \in 0..7
-                  /\ nb.cells[i].md \in 0..5 /\ nb.cells[i].ec \in 0..2 /\ nb.cells[i].att \in 0..3
+                  /\ nb.cells[i].src \in 0..10 /\ nb.cells[i].outs \in 0..7
+                  /\ nb.cells[i].md \in (0..5) \cup (11..14) /\ nb.cells[i].ec \in 0..2 /\ nb.cells[i].att \in 0..3
 TypeOK == IsNb(base) /\ IsNb(local) /\ IsNb(remote)
 
 UniqueCids == \A nb \in {base, local, remote} :
